@@ -27,6 +27,7 @@ import (
 	"strconv"
 	"strings"
 	"sync"
+	"sync/atomic"
 	"time"
 
 	"github.com/centrifugal/centrifuge"
@@ -131,6 +132,7 @@ type spRunner struct {
 
 	trackPark map[string]*cl.Gate // client uid -> armed gate for its next successful track reply
 	free  bool // free-running mode: no gates, the backend answers at once, the refresh timer is on
+	loose atomic.Bool // the real code left the model: gates no longer park, the backend answers at once
 	conns map[string]*spConn
 	dummy *spConn
 	uidOf map[string]string // conn name -> client uid
@@ -211,7 +213,7 @@ func newSPRunner(bi int, proto centrifuge.ProtocolType, versioned bool, free ...
 
 // backend is the scripted OnSharedPoll handler.
 func (r *spRunner) backend(_ context.Context, ev centrifuge.SharedPollEvent) (centrifuge.SharedPollResult, error) {
-	if r.free {
+	if r.free || r.loose.Load() {
 		ks := make([]string, 0, len(ev.Items))
 		for _, it := range ev.Items {
 			ks = append(ks, it.Key)
@@ -249,7 +251,7 @@ func (r *spRunner) backend(_ context.Context, ev centrifuge.SharedPollEvent) (ce
 
 // logGate is the node's LogHandler: the trace entry written between the two phases of a keyed write.
 func (r *spRunner) logGate(e centrifuge.LogEntry) {
-	if r.free || e.Message != "-out->" {
+	if r.free || r.loose.Load() || e.Message != "-out->" {
 		return
 	}
 	ps, ok := e.Fields["push"].(string)
@@ -708,7 +710,15 @@ func (r *spRunner) run(bi int, beh []map[string]any, compare bool, res *vh.Resul
 		}
 		return map[string]any{"versioned": r.versioned, "proto": r.protoName(), "steps": steps, "frames": fr}
 	}
+	diverged := ""
+	following := false // inside the step loop: a disagreement with the model starts the free run instead of ending the behaviour
 	drift := func(what string) {
+		if following {
+			if diverged == "" {
+				diverged = what
+			}
+			return
+		}
 		res.Drift("C25", fmt.Sprintf("%s (behaviour %d %s versioned=%v)", what, bi, r.protoName(), r.versioned), replay())
 		completed = 0
 	}
@@ -784,7 +794,8 @@ func (r *spRunner) run(bi int, beh []map[string]any, compare bool, res *vh.Resul
 	started := map[string]bool{}
 	wReleased := false
 	nontrivial := false
-	for si := 1; si < len(beh) && completed == 1; si++ {
+	following = true
+	for si := 1; si < len(beh) && completed == 1 && diverged == ""; si++ {
 		st := beh[si]
 		step := vh.Map(st["step"])
 		act := vh.Str(step["act"])
@@ -969,6 +980,11 @@ func (r *spRunner) run(bi int, beh []map[string]any, compare bool, res *vh.Resul
 			}
 		case "RevStart":
 			k := vh.Str(step["k"])
+			for _, c := range r.conns {
+				if c.park != nil && c.parkKey == k {
+					c.missed[k] = "revoke-during-track" // the key is revoked while this connection's track sits between reply and hub join
+				}
+			}
 			r.mu.Lock()
 			r.policy["r"] = lookahead(beh, si, "r", r.uidOf)
 			r.mu.Unlock()
@@ -1123,10 +1139,94 @@ func (r *spRunner) run(bi int, beh []map[string]any, compare bool, res *vh.Resul
 			for name, c := range r.conns {
 				mo := spModelOut(st, name)
 				if !sameSP(c.seen, mo) {
-					drift(fmt.Sprintf("frames of %s differ after %s: real %s, model %s", name, act, vh.J(c.seen), vh.J(mo)))
+					diverged = fmt.Sprintf("frames of %s differ after %s: real %s, model %s", name, act, vh.J(c.seen), vh.J(mo))
 					break
 				}
 			}
+		}
+	}
+	following = false
+	if completed == 1 && (diverged != "" || !compare) {
+		// FRAMEWORK.md rule 9 (free run): the real code left the model. Remember the difference, stop following the model,
+		// let everything parked finish, then give every key a new payload (backend change + publish + notification) and
+		// judge by the property alone: with everything at rest every connection that tracks a key must have its newest
+		// payload. Only when that holds is the difference reported as drift.
+		r.loose.Store(true)
+		r.drainArrivals()
+		for t, a := range r.pending {
+			if a.kind == "call" {
+				a.resume <- r.answer(a.keys)
+			} else {
+				close(a.goOn)
+			}
+			delete(r.pending, t)
+		}
+		for _, c := range r.conns {
+			if c.park != nil {
+				c.park.Release()
+				select {
+				case <-c.parkDone:
+				case <-time.After(spGateWait):
+				}
+				c.park = nil
+			}
+		}
+		for _, t := range []string{"p", "r"} {
+			if started[t] {
+				select {
+				case <-r.done[t]:
+				case <-time.After(spGateWait):
+				}
+			}
+		}
+		r.quiesceWorker()
+		newest := map[string]int{}
+		i := 0
+		for k := range r.bk {
+			i++
+			r.mu.Lock()
+			it := bkItem{r.bk[k].ver + 1, 900 + i}
+			r.bk[k] = it
+			ep := r.bep
+			r.mu.Unlock()
+			r.define(ep, k, it.ver, it.id)
+			newest[k] = it.id
+			if r.versioned {
+				_ = r.env.Node.SharedPollPublish(context.Background(), r.ch, k, it.ver, epStr(ep), r.pl.get(it.id))
+			}
+			r.env.Node.SharedPollNotify([]centrifuge.SharedPollNotificationItem{{Channel: r.ch, Key: k}})
+		}
+		r.quiesceWorker()
+		bad := false
+		for name, c := range r.conns {
+			if closed, _ := c.conn.T.Closed(); !closed {
+				c.conn.Barrier(2 * time.Second)
+			}
+			for _, v := range r.consume(c) {
+				violate(v, name)
+				bad = true
+			}
+			for k, id := range newest {
+				if c.subbed && c.tracked[k] && c.app[k] != id && c.epoch == epStr(r.bep) {
+					sig := "stale-after-publish"
+					if w := c.missed[k]; w != "" {
+						sig += ":track-window:" + w
+					} else {
+						sig += ":free-run"
+					}
+					if diverged == "" {
+						diverged = "end of a witness schedule"
+					}
+					violate(spVerdict{sig, fmt.Sprintf("free run (%s): key %s got a new payload #%d (backend change, publish, notification) and with everything at rest the connection that tracks it still has payload #%d (version %d); frames %s", diverged, k, id, c.app[k], c.cver[k], vh.J(c.seen))}, name)
+					bad = true
+				}
+			}
+		}
+		if !bad && diverged != "" {
+			drift(diverged + " (free run afterwards: every tracking connection received the newest payloads)")
+		}
+		if bad || diverged != "" {
+			completed = 0
 		}
 	}
 	if completed == 1 {
